@@ -91,6 +91,21 @@ impl LineIndex {
         }
     }
 
+    /// The text of a line without its line terminator: a column past the end of the line
+    /// is clamped to the end of that line, not to the end of the document.
+    fn line_content<'a>(&self, line: usize, start_offset: TextSize, source_text: &'a str) -> &'a str {
+        let end = self
+            .line_offsets
+            .get(line + 1)
+            .map(|offset| *offset as usize)
+            .unwrap_or(source_text.len())
+            .min(source_text.len());
+        let start = usize::from(start_offset).min(end);
+        let line_text = source_text.get(start..end).unwrap_or("");
+        let line_text = line_text.strip_suffix('\n').unwrap_or(line_text);
+        line_text.strip_suffix('\r').unwrap_or(line_text)
+    }
+
     // get offset by line and col
     pub fn get_offset(&self, line: usize, col: usize, source_text: &str) -> Option<TextSize> {
         let start_offset = self.get_line_offset(line)?;
@@ -98,13 +113,14 @@ impl LineIndex {
             return Some(start_offset);
         }
 
+        let line_text = self.line_content(line, start_offset, source_text);
         if self.is_line_only_ascii_index(line) {
-            let col = col.min(source_text.len());
+            let col = col.min(line_text.len());
             Some(start_offset + TextSize::from(col as u32))
         } else {
             let mut offset = 0;
             let mut col = col;
-            for c in source_text[usize::from(start_offset)..].chars() {
+            for c in line_text.chars() {
                 if col == 0 {
                     break;
                 }
@@ -127,13 +143,14 @@ impl LineIndex {
             return Some(0.into());
         }
 
+        let line_text = self.line_content(line, start_offset, source_text);
         if self.is_line_only_ascii_index(line) {
-            let col = col.min(source_text.len());
+            let col = col.min(line_text.len());
             Some(TextSize::from(col as u32))
         } else {
             let mut offset = 0;
             let mut col = col;
-            for c in source_text[usize::from(start_offset)..].chars() {
+            for c in line_text.chars() {
                 if col == 0 {
                     break;
                 }
